@@ -17,8 +17,8 @@
   on the doubles of the tree has the shape `g17Shape` — a hypothesis on libc inside `treeOk`, checked against
   glibc and against the exact reference `Dbl.fmtG17` on every double of every correspondence run.
 -/
-import JsonC.Lemmas.SerializeUtf8
-import JsonC.Model.Tokener
+import JsonC.Lemmas.SerializeSem
+import JsonC.Props.C01
 
 namespace JsonC.Serialize
 open JsonC Generated SerSpec Rfc8259
@@ -166,30 +166,32 @@ theorem ser_double_post (noZero : Bool) (t : Bytes) (h : g17Shape t = true) :
 section roundtrip
 open Tokener
 
-/-- C01's theorem (in progress in Props/C01.lean as `parse_valid lc hl`), carried as a named hypothesis:
-json_tokener_parse_ex with len = -1 on the text of a well-formed RFC 8259 document returns what the
-document denotes -/
+/-- C01's theorem in the form used here (`Props.C01.parse_valid` proves it from the libc hypotheses
+`LibcSpec lc`, see `roundtrip`): json_tokener_parse_ex on the NUL-terminated text of a well-formed RFC 8259
+document returns what the document denotes -/
 def ParseValidHyp (lc : Libc) : Prop :=
-  ∀ (d : Int) (f : Nat) (t : Tok) (x : Rfc8259.Text), Tokener.new d f = some t → (f = 0 ∨ f = 1) →
-    x.doc.ok = true → x.doc.nest < d.toNat → x.doc.intsFit = true → x.doc.keysNulFree = true →
-    let fin := parseExZ lc t x.text
-    fin.err = .success ∧ fin.value = some x.doc.denote ∧ fin.offset = x.text.length ∧ fin.fault = none ∧ fin.stuck = false
+  ∀ (depth : Int) (flags : Nat) (t : Tok) (x : Rfc8259.Text), Tokener.new depth flags = some t → (flags = 0 ∨ flags = 1) →
+    x.doc.ok = true → x.doc.keysNulFree = true → (flags = 1 → x.doc.intsFit = true) → x.doc.nest + 1 ≤ depth.toNat →
+    let f := parseEx lc t (x.text ++ [0])
+    f.err = .success ∧ f.value = some x.doc.denote ∧ f.offset = x.text.length ∧ f.stuck = false ∧ f.fault = none
 
 /-- **roundtrip**, full statement: for every tree of the property nested less than the tokener's depth
 (32), and every flag word without COLOR (coloured text is not JSON), `json_tokener_parse_ex(new_ex(32),
-text, -1)` succeeds at the end of the text with a tree equal to the original, and serializing that tree
-with the same flags reproduces the text byte for byte. -/
+text, -1)` succeeds at the end of the text, without fault, with a tree equal to the original — `valEq`
+(same shape, integers by value, doubles by bit pattern, members in order), hence `JVal.SemEq`, the relation
+json_object_equal decides on API-built trees (Props/C09 `equal_iff_sem`) — and serializing that tree with
+the same flags reproduces the text byte for byte. -/
 def RoundtripStatement (lc : Libc) : Prop :=
   ∀ (flags : Nat) (v : JVal), (Fl.ofNat flags).color = false → treeOk fmt v = true →
     roundTrips fmt Dbl.strtod v = true → nest v < 32 →
     ∃ t tok p, serialize fmt flags v = .ok t ∧ Tokener.new 32 0 = some tok ∧
       (parseExZ lc tok t).err = .success ∧ (parseExZ lc tok t).value = some p ∧
       (parseExZ lc tok t).offset = t.length ∧ (parseExZ lc tok t).fault = none ∧ (parseExZ lc tok t).stuck = false ∧
-      valEq p v = true ∧ serialize fmt flags p = .ok t
+      valEq p v = true ∧ JVal.SemEq v p ∧ serialize fmt flags p = .ok t
 
-/-- **roundtrip** as the corollary of `ser_is_doc` and C01 it is: `ParseValidHyp lc → RoundtripStatement`.
-(The proof needs nothing else: the document's nesting is the tree's, its integers fit 64 bits, its names
-are NUL-free, it denotes the tree, and what it denotes serializes to the same bytes.) -/
+/-- `roundtrip` as the corollary of `ser_is_doc` and C01 it is: nothing else is needed — the document's
+nesting is the tree's, its integers fit 64 bits, its names are NUL-free, it denotes the tree, the text has
+no NUL (so len = -1 reads all of it), and what the document denotes serializes to the same bytes. -/
 theorem roundtrip_of_parse_valid (lc : Libc) (hpv : ParseValidHyp lc) : RoundtripStatement fmt lc := by
   intro flags v hc hok hrt hnest
   have hlvl : 2 * (0 + nest v) ≤ intMax := by have : intMax = 2147483647 := rfl; omega
@@ -201,26 +203,43 @@ theorem roundtrip_of_parse_valid (lc : Libc) (hpv : ParseValidHyp lc) : Roundtri
     rw [h2] at h1; simpa [strip] using h1
   obtain ⟨hn, hfit, hknf⟩ := (shape_all fmt).1 v (Fl.ofNat flags) 0 d hok hd
   obtain ⟨tok, hnew⟩ : ∃ tok, Tokener.new 32 0 = some tok := ⟨_, rfl⟩
-  have hp := hpv 32 0 tok ⟨[], d, []⟩ hnew (Or.inl rfl) hdok (by rw [hn]; exact hnest) hfit hknf
+  have hp := hpv 32 0 tok ⟨[], d, []⟩ hnew (Or.inl rfl) hdok hknf (fun _ => hfit) (by rw [hn]; simp; omega)
   have hxt : (⟨[], d, []⟩ : Rfc8259.Text).text = d.text := by simp [Rfc8259.Text.text, Ws.text]
   simp only [hxt] at hp
   obtain ⟨p1, p2, p3, p4, p5⟩ := hp
-  refine ⟨t, tok, d.denote, by rw [serialize_eq_child fmt flags v hc]; exact ht, hnew, ?_, ?_, ?_, ?_, ?_, ?_, ?_⟩
-  · rw [htext]; exact p1
-  · rw [htext]; exact p2
-  · rw [htext]; exact p3
-  · rw [htext]; exact p4
-  · rw [htext]; exact p5
-  · exact (denote_all fmt).1 v (Fl.ofNat flags) 0 d hok hrt hd
+  -- len = -1: the C string is the whole text
+  have hser : serialize fmt flags v = .ok t := by rw [serialize_eq_child fmt flags v hc]; exact ht
+  have h0 : 0 ∉ t := ser_no_nul fmt flags v t hser
+  have hz : parseExZ lc tok t = parseEx lc tok (d.text ++ [0]) := by
+    unfold parseExZ
+    have hc0 : cstr t = t := by
+      unfold cstr; apply takeWhile_all; intro x hx
+      simp only [bne_iff_ne, ne_eq]; intro e; subst e; exact h0 hx
+    rw [hc0, htext]
+    simp only [p1]
+  have hveq := (denote_all fmt).1 v (Fl.ofNat flags) 0 d hok hrt hd
+  refine ⟨t, tok, d.denote, hser, hnew, ?_, ?_, ?_, ?_, ?_, hveq, ?_, ?_⟩
+  · rw [hz]; exact p1
+  · rw [hz]; exact p2
+  · rw [hz, htext]; exact p3
+  · rw [hz]; exact p5
+  · rw [hz]; exact p4
+  · exact ⟨(valEq_sem_all.1 d.denote v hveq).symm, (nanFree_all fmt).1 v hok⟩
   · rw [serialize_eq_child fmt flags d.denote hc]
     exact (reser_all fmt).1 v (Fl.ofNat flags) 0 d t hok hd ht
 
-/-- **roundtrip_partial**: the part proved without C01's theorem, on the tokener machine itself — the
-scalars whose text does not depend on the value's size: `null`, `true`, `false` under every flag word
-without COLOR (and `reserialize`).  Strings, numbers and containers are `roundtrip_of_parse_valid`;
-until `parse_valid` is closed they are decided by the correspondence run (`rt` op: status, json_object_equal,
-byte-identical re-serialization, on every generated tree). -/
-theorem roundtrip_partial (flags : Nat) (v : JVal) (hv : v = .null ∨ v = .bool true ∨ v = .bool false)
+/-- **roundtrip**: `RoundtripStatement` holds for every libc meeting the named hypotheses `LibcSpec lc`
+(strtoll / strtoull exact-or-saturating on digit strings, strtod consuming the whole number text and
+correctly rounded; compared with glibc on every number of the C01 and C02 correspondence runs), by C01's
+`parse_valid`.  Nothing is left partial. -/
+theorem roundtrip (lc : Libc) (hl : LibcSpec lc) : RoundtripStatement fmt lc :=
+  roundtrip_of_parse_valid fmt lc (fun depth flags t x hnew hf hok hknf hfit hd =>
+    JsonC.Props.C01.parse_valid lc hl depth flags hf t hnew x hok hknf hfit hd)
+
+/-- a libc-hypothesis-free instance, evaluated on the tokener machine with the reference libc `refLibc`:
+`null`, `true`, `false` under every flag word without COLOR round-trip (non-vacuity of `roundtrip`'s
+conclusion; for everything else `refLibc`/glibc meet `LibcSpec` as far as the correspondence runs can tell) -/
+theorem roundtrip_literals (flags : Nat) (v : JVal) (hv : v = .null ∨ v = .bool true ∨ v = .bool false)
     (hc : (Fl.ofNat flags).color = false) :
     ∃ t tok p, serialize fmt flags v = .ok t ∧ Tokener.new 32 0 = some tok ∧
       (parseExZ refLibc tok t).err = .success ∧ (parseExZ refLibc tok t).value = some p ∧
